@@ -548,7 +548,11 @@ class SqliteIndex(Index):
 
         debug_literal(f"done loading sketch {sketch_id} {time.time() - start:.2f})")
 
-        return SourmashSignature(mh, name=name, filename=filename)
+        # like every other loader: what a collection hands out is frozen
+        # (freeze in place: the object was just created and is not shared)
+        ss = SourmashSignature(mh, name=name, filename=filename)
+        ss.into_frozen()
+        return ss
 
     def _load_sketches(self, c):
         "Load sketches based on manifest _id column."
@@ -583,6 +587,7 @@ class SqliteIndex(Index):
                 mh.add_hash(convert_hash_from(hashval))
 
             ss = SourmashSignature(mh, name=row["name"], filename=row["filename"])
+            ss.into_frozen()
             yield ss, self.dbfile, sketch_id
 
     def _get_matching_sketches(self, c, hashes, max_hash):
